@@ -481,16 +481,22 @@ impl FileMetaStore {
         value: &[u8],
     ) -> Result<(), Error> {
         if key == HARD_STATE_KEY {
+            // Write a sibling file and rename it over the old one: `File::create` on the live file
+            // truncates it first, so a crash before the new bytes are written would lose the previous
+            // term/vote (an empty file decodes to "no hard state").
             let hard_state_path = self.data_dir.join(HARD_STATE_FILE_NAME);
-            let mut file = File::create(hard_state_path)?;
+            let tmp_path = self.data_dir.join(format!("{HARD_STATE_FILE_NAME}.tmp"));
+            let mut file = File::create(&tmp_path)?;
             #[cfg(feature = "__verif")]
             d_engine_core::verif_hooks::crash_point("meta.save.after_create");
             file.write_all(value)?;
             #[cfg(feature = "__verif")]
             d_engine_core::verif_hooks::crash_point("meta.save.after_write");
             file.flush()?;
+            file.sync_all()?;
             #[cfg(feature = "__verif")]
             d_engine_core::verif_hooks::crash_point("meta.save.after_flush");
+            fs::rename(&tmp_path, &hard_state_path)?;
         }
 
         Ok(())
